@@ -163,7 +163,7 @@ void harness(void) {
 		t = sn_txt(&e_query);  VPOST("C08", txt_same(&v1.query, (mask & URI_NORMALIZE_QUERY) ? &t : &v0.query), "NormalizeSyntax: query normal iff selected, else unchanged");
 		t = sn_txt(&e_frag);   VPOST("C08", txt_same(&v1.fragment, (mask & URI_NORMALIZE_FRAGMENT) ? &t : &v0.fragment), "NormalizeSyntax: fragment normal iff selected, else unchanged");
 		if (mask & URI_NORMALIZE_PATH) {
-			VPOST_KF("C08", KF_C08_NETPATH_KEEPS_DOTDOT, (v0.scheme.len < 0 && v0.hostkind != VU_HK_NONE),
+			VPOST_KF("C08,C09", KF_C08_NETPATH_KEEPS_DOTDOT, (v0.scheme.len < 0 && v0.hostkind != VU_HK_NONE),
 				unspecified || sv_path_eq(&v1.path, &e_path), "NormalizeSyntax: path == dot-segment removal of the percent-normalized segments (leading '..' kept only for relative-path references)",
 				"C08-network-path-reference-treated-as-relative");
 		} else {
@@ -178,7 +178,7 @@ void harness(void) {
 				v0.path.rooted || sv_path_empty(&v0.path) || (!v1.path.rooted && !sv_path_empty(&v1.path) && !sv_path_unrooted_reads_rooted(&v1.path)),
 				"NormalizeSyntax: a relative path stays relative and non-empty", "C09-relative-path-collapses");
 		}
-		VPOST_KF("C07", KF_C09_RELPATH_COLLAPSE, (relref && (mask & URI_NORMALIZE_PATH) && (unspecified || (e_path.n > 0 && SV_IS_DOT(&e_path.seg[0])))),
+		VPOST_KF("C07", KF_C09_RELPATH_COLLAPSE, (relref && (mask & URI_NORMALIZE_PATH) && (unspecified || (e_path.n > 0 && SV_IS_DOT(&e_path.seg[0]) && !(v0.path.n > 0 && SV_IS_DOT(&v0.path.seg[0]))))),
 			sv_reparse_safe(&v1), "NormalizeSyntax: result text is read back with the same components", "C07-normalize-relative-path-reparse");
 		/* C12: ownership */
 		if (!V_OWNED && (mask & 63u) != 0) {
